@@ -2,14 +2,14 @@
 
 model:     lean/CssVerif/Model/Tok.lean (+ generated lean/CssVerif/Gen/C05Productions.lean)
 theorems:  lean/CssVerif/Props/C05.lean
-translate: tools/gen/c05_productions.py (MACROS/PRODUCTIONS, at-keywords, unicodesub/cleanstring/_simpleescapes,
+translate: tools/gen/c05_productions.py (MACROS/PRODUCTIONS, at-keywords, unicodesub/stringsub/_simpleescapes,
            literal constants of Tokenizer.tokenize) — cross-checked against the live objects
 correspondence:
   (1) Re level: `re.compile(p).match(s)` vs `Re.first` for every generated production / auxiliary pattern on
       strings over the pattern's own alphabet (validates the sre-faithfulness assumption),
   (2) tokenizer: (type, value, line, col) lists, impl vs model, fullsheet x doComments, on the grammar-token
       stream, its malformed mutations / truncations, the boundary stream and a character soup,
-  (3) unicodesub / cleanstring / normalize / error-report helpers.
+  (3) unicodesub / stringsub (+ _repl) / normalize / error-report helpers.
 oracle (implementation only, independent of the model): termination; offsets recomputed from (line, col) tile the
   input; value = independent unescape of the span (+ completion for the last token of a full sheet); exactly one
   EOF, last; classification of grammar tokens rendered with unambiguous separators; error reports.
@@ -24,7 +24,9 @@ from gen import c05_productions as gen
 from gen import relib
 
 HEX = '0123456789abcdefABCDEF'
-UNESC_TYPES = ('DIMENSION', 'IDENT', 'STRING', 'URI', 'HASH', 'COMMENT', 'FUNCTION', 'INVALID', 'UNICODE-RANGE')
+UNESC_TYPES = ('DIMENSION', 'IDENT', 'HASH', 'FUNCTION', 'UNICODE-RANGE')     # escapes decoded
+STRING_TYPES = ('STRING', 'INVALID', 'URI')                                    # one-pass string decoding
+# every other type, comments included: the value is the text itself
 MODES = ((True, True), (False, True), (True, False), (False, False))
 
 
@@ -63,20 +65,6 @@ def spec_unescape(s):
                 continue
         out.append(c)
         i += 1
-    return ''.join(out)
-
-
-def spec_clean(s):
-    """remove backslash-newline (line continuation inside strings)"""
-    out, i, n = [], 0, len(s)
-    while i < n:
-        if s[i] == '\\' and s[i + 1:i + 3] == '\r\n':
-            i += 3
-        elif s[i] == '\\' and i + 1 < n and s[i + 1] in '\n\r\f':
-            i += 2
-        else:
-            out.append(s[i])
-            i += 1
     return ''.join(out)
 
 
@@ -132,40 +120,12 @@ def spec_string_value(s):
     return ''.join(out)
 
 
-def in_clean_region(s):
-    """known finding C05-clean-decoded-newline: cleanstring runs on the DECODED text, so a newline that was written
-    as a hex escape is taken for a line continuation when the decoded text has a backslash in front of it:
-    (i) an escaped backslash (`\\\\` or a hex escape of U+005C) directly followed by a hex escape of LF, CR or FF;
-    (ii) a continuation backslash-CR directly followed by a hex escape of LF"""
-    u = esc_units(s)
-    for a, b in zip(u, u[1:]):
-        if b[0] == 'hex' and b[2] in (10, 13, 12):
-            if a[0] == 'pair' or (a[0] == 'hex' and a[2] == 0x5C):
-                return True
-            if a[0] == 'cont' and a[1] == '\\\r' and b[2] == 10:
-                return True
-    return False
-
-
-def raw_newline_after_escaped_backslash(s):
-    u = esc_units(s)
-    for a, b in zip(u, u[1:]):
-        if (a[0] == 'pair' or (a[0] == 'hex' and a[2] == 0x5C)) and b[0] == 'chr' and b[1] in '\n\r\f':
-            return True
-    return False
-
-
 def spec_value(typ, src):
-    if typ in ('STRING', 'INVALID'):
+    if typ in STRING_TYPES:
         return spec_string_value(src)
     if typ in UNESC_TYPES:
         return spec_unescape(src)
     return src
-
-
-def spec_value_two_pass(typ, src):
-    """what the code computes for strings: decode, then remove backslash-newline from the decoded text"""
-    return spec_clean(spec_unescape(src))
 
 
 def spec_linecol(text, off):
@@ -363,8 +323,7 @@ def g_token(rng):
         w2 = rng.choice(['', '', ' ', '\f'])
         if rng.random() < 0.5:
             q = rng.choice('"\'')
-            # cleanstring is applied to STRING/INVALID only (tokenize2.py:225): a continuation stays in a URI value
-            body, val = g_string_body(rng, q, keep_continuation=True)
+            body, val = g_string_body(rng, q)
             inner, ival = q + body + q, q + val + q
         else:
             inner = ''.join(rng.choice(['a', 'b', '/', '.', '!', '#', '%', '&', '*', '~', '(', '\t', 'é', 'x.png',
@@ -382,7 +341,8 @@ def g_token(rng):
     if k == 'CDC':
         return ('CDC', '-->', '-->', k)
     if k == 'COMMENT':
-        body = ''.join(rng.choice(['a', ' ', '*', '/ ', '\n', 'é', '{', '"', "'", 'x*', '**', '\r\n'])
+        body = ''.join(rng.choice(['a', ' ', '*', '/ ', '\n', 'é', '{', '"', "'", 'x*', '**', '\r\n', '\\41 ', '\\\\', '\\2a',
+                                   '\\\n'])
                        for _ in range(rng.randint(0, 6)))
         body = body.replace('*/', '* /')
         if body.endswith('/') and False:
@@ -398,7 +358,7 @@ def g_token(rng):
     return ('CHAR', c, c, 'CHAR')
 
 
-def g_string_body(rng, q, keep_continuation=False):
+def g_string_body(rng, q):
     parts, vals = [], []
     for _ in range(rng.randint(0, 6)):
         r = rng.random()
@@ -412,7 +372,7 @@ def g_string_body(rng, q, keep_continuation=False):
         elif r < 0.7:
             nl = rng.choice(['\n', '\r\n', '\r', '\f'])
             parts.append('\\' + nl)
-            vals.append('\\' + nl if keep_continuation else '')
+            vals.append('')
         elif r < 0.8:
             parts.append('\\\\')
             vals.append('\\\\')
@@ -494,7 +454,7 @@ def class_boundaries(d):
                 walk(x)
     for _, r in d['re']:
         walk(r)
-    for k in ('re_unicodesub', 're_cleanstring', 're_simpleescapes'):
+    for k in ('re_unicodesub', 're_stringsub', 're_simpleescapes'):
         walk(d[k])
     pts |= {0, 0xD800, 0xDFFF, 0xFFFF, 0x10000, 0x10FFFF, 0x212A, 0x130, 0xFEFF, 0x85, 0x2028}
     return sorted(pts)
@@ -583,20 +543,22 @@ class C05(Check):
 
     def run(self, ctx):
         d = self.setup(ctx)
-        self.run_corpus(ctx)
-        self.check_lower(ctx)
+        ctx.phase(self.run_corpus, ctx)
+        ctx.phase(self.check_lower, ctx)
         texts = self.gen_texts(ctx, d)
-        self.corr_tokenize(ctx, texts)
+        ctx.phase(self.corr_tokenize, ctx, texts)
         if d:
-            self.corr_re(ctx, d)
+            ctx.phase(self.corr_re, ctx, d)
         try:
             self.corr_helpers(ctx)
-        except (ValueError, TimeLimit) as e:
+        except (ValueError, AttributeError, TimeLimit) as e:
+            # the helpers are reached from outside on a best-effort basis (a renamed attribute / callback is not a
+            # finding; the same code is exercised through tokens by corr_tokenize)
             ctx.notes['helpers_skipped'] = repr(e)
-        self.corr_specs(ctx)
-        self.oracle_classify(ctx)
-        self.oracle_completion(ctx)
-        self.oracle_errors(ctx)
+        ctx.phase(self.corr_specs, ctx)
+        ctx.phase(self.oracle_classify, ctx)
+        ctx.phase(self.oracle_completion, ctx)
+        ctx.phase(self.oracle_errors, ctx)
 
     # -- corpus -----------------------------------------------------------------------------------
     def corpus(self, ctx):
@@ -632,7 +594,7 @@ class C05(Check):
         rng = ctx.sub_rng('re')
         pats = [(n, '(?:%s)' % v, re.U, r) for (n, v), (_, r) in zip(d['expanded'], d['re'])]
         pats.append(('unicodesub', d['unicodesub'][0], d['unicodesub'][1], d['re_unicodesub']))
-        pats.append(('cleanstring', d['cleanstring'][0], d['cleanstring'][1], d['re_cleanstring']))
+        pats.append(('stringsub', d['stringsub'][0], d['stringsub'][1], d['re_stringsub']))
         pats.append(('simpleescapes', d['simpleescapes'][0], d['simpleescapes'][1], d['re_simpleescapes']))
         lines, cases = [], []
         per = ctx.n(800, 6000)
@@ -672,34 +634,34 @@ class C05(Check):
         import sys as _sys
         rng = ctx.sub_rng('helpers')
         t = Tokenizer()
+        repl = find_repl(t)
         lines, cases = [], []
         alpha = list('\\\\\\\\0123456789abcdefABCDEFgG \t\r\n\f"x') + ['\r\n', '\\5c', '\\5C ', '\\110000', '\\10ffff',
-                                                                         '\\0', '\\d800', 'é', 'K', 'İ']
+                                                                         '\\0', '\\d800', 'é', 'K', 'İ', '\\a ', '\\d']
         for _ in range(ctx.n(8000, 80000)):
             s = ''.join(rng.choice(alpha) for _ in range(rng.randint(0, 12)))
-            lines.append('subu ' + enc(s))
-            cases.append(('subu', s))
-            lines.append('subclean ' + enc(s))
-            cases.append(('subclean', s))
-            lines.append('normalize ' + enc(s))
-            cases.append(('normalize', s))
+            for kind in ('subu', 'subs', 'normalize'):
+                lines.append('%s %s' % (kind, enc(s)))
+                cases.append((kind, s))
         out = ctx.driver(lines) if ctx.model_ok else [None] * len(lines)
         for (kind, s), m in zip(cases, out):
             if kind == 'subu':
-                # impl (through a COMMENT carrier) vs independent specification (oracle) vs model (correspondence)
-                got = 'OK ' + enc(impl_unicodesub(t, s))
+                # impl vs independent specification (oracle) vs model (correspondence)
+                got = 'OK ' + enc(t.unicodesub(repl, s))
                 want = spec_unescape(s)
                 ctx.case(key=(kind, s), nontrivial='\\' in s, kind='helper:subu')
                 if got != 'OK ' + enc(want):
                     ctx.violate('token values: CSS escapes decoded as the syntax prescribes (unicodesub + _repl)',
                                 {'call': 'unicodesub', 'text': enc(s), 'repr': repr(s)},
                                 {'impl': got, 'spec': enc(want)})
-            elif kind == 'subclean':
-                got = 'OK ' + enc(t.cleanstring('', s))
-                ctx.case(key=(kind, s), nontrivial='\\' in s, kind='helper:clean')
-                if got != 'OK ' + enc(spec_clean(s)):
-                    ctx.violate('string values: backslash-newline removed', {'call': 'cleanstring', 'text': enc(s)},
-                                {'impl': got, 'spec': enc(spec_clean(s))})
+            elif kind == 'subs':
+                got = 'OK ' + enc(t.stringsub(repl, s))
+                want = spec_string_value(s)
+                ctx.case(key=(kind, s), nontrivial='\\' in s, kind='helper:subs')
+                if got != 'OK ' + enc(want):
+                    ctx.violate('string values: escapes decoded and backslash-newline removed in one pass over the '
+                                'source (stringsub + _repl)', {'call': 'stringsub', 'text': enc(s), 'repr': repr(s)},
+                                {'impl': got, 'spec': enc(want)})
             else:
                 got = 'OK ' + enc(normalize(s))
                 ctx.case(key=(kind, s), nontrivial='\\' in s, kind='helper:normalize')
@@ -715,26 +677,17 @@ class C05(Check):
         lines, cases = [], []
         for _ in range(ctx.n(6000, 100000)):
             s = ''.join(rng.choice(alpha) for _ in range(rng.randint(0, 10)))
-            for f in ('unescape', 'stripcont', 'strval', 'safe', 'lc'):
+            for f in ('unescape', 'strval', 'lc'):
                 lines.append('spec %s %s' % (f, enc(s)))
                 cases.append((f, s))
         out = ctx.driver(lines) if ctx.model_ok else []
         for (f, s), m in zip(cases, out):
             if f == 'unescape':
                 want = 'OK ' + enc(spec_unescape(s))
-            elif f == 'stripcont':
-                want = 'OK ' + enc(spec_clean(s))
             elif f == 'strval':
                 want = 'OK ' + enc(spec_string_value(s))
-            elif f == 'lc':
-                want = '%d %d' % spec_linecol(s, len(s))
             else:
-                # the Lean guard is stated for arbitrary texts: besides the two shapes of the finding it also
-                # rejects a RAW newline directly after an escaped backslash (impossible inside a STRING token)
-                want = '0' if (in_clean_region(s) or raw_newline_after_escaped_backslash(s)) else '1'
-                # and where the guard holds the two readings agree (the theorem, observed)
-                if m == '1' and spec_string_value(s) != spec_value_two_pass('STRING', s):
-                    ctx.disagree('safe => one-pass = two-pass', {'text': enc(s)}, 'differ', 'guard holds')
+                want = '%d %d' % spec_linecol(s, len(s))
             ctx.case(key=('spec', f, s), nontrivial='\\' in s, kind='spec:' + f)
             if m != want:
                 ctx.disagree('specification function %s (python oracle vs Lean)' % f, {'text': enc(s), 'repr': repr(s)},
@@ -956,8 +909,7 @@ class C05(Check):
             ctx.violate('only comments are filtered out (tail)', w, {'tail': text[prev_end:]})
 
     def value_ok(self, ctx, w, t, span, may_complete, quiet=False):
-        """value of token t = decoding of its span (for the last token of a full sheet: of span + completion);
-        inside the region of known finding C05-clean-decoded-newline the two-pass value is accepted and attributed"""
+        """value of token t = decoding of its span (for the last token of a full sheet: of span + completion)"""
         typ, val = t[0], t[1]
         srcs = [span]
         if may_complete:
@@ -966,18 +918,10 @@ class C05(Check):
             elif typ == 'URI':
                 srcs += [span + e for e in ("')", '")', ')')]
             elif typ == 'COMMENT':
-                if val == span + '*/':          # a completed comment is yielded as written (tokenize2.py:173)
-                    return True
+                srcs.append(span + '*/')
         for src in srcs:
             if val == spec_value(typ, src):
                 return True
-        if typ in ('STRING', 'INVALID'):
-            for src in srcs:
-                if in_clean_region(src) and val == spec_value_two_pass(typ, src):
-                    if not quiet:
-                        ctx.violate('value = span with CSS escapes decoded (strings: continuation removed)', w,
-                                    {'token': list(t), 'span': span}, known='C05-clean-decoded-newline')
-                    return True
         return False
 
     # -- classification oracle --------------------------------------------------------------------------
@@ -1006,11 +950,6 @@ class C05(Check):
                     ctx.dist['lexeme:' + k] += 1
                 if got != expect:
                     known = None
-                    if len(got) == len(expect) and all(
-                            g == e or (g[0] == e[0] == 'STRING' and in_clean_region(lx)
-                                       and g[1] == spec_value_two_pass('STRING', lx))
-                            for g, e, lx in zip(got, expect, lex)):
-                        known = 'C05-clean-decoded-newline'
                     wtext, wexp, wgot = text, expect, got
                     if not known:
                         # minimise: the first lexeme that is not recovered when tokenised on its own
@@ -1116,8 +1055,6 @@ class C05(Check):
             t = [t for t in toks if t[0] != 'BOM'][0]
             want = spec_linecol(text, len(toks[0][1]))
             return (t[2], t[3]) != want
-        if finding['id'] == 'C05-clean-decoded-newline':
-            return toks[0][1] != spec_string_value(text)
         return True
 
     def replay(self, ctx, data):
@@ -1194,14 +1131,23 @@ def is_comments(s):
     return True
 
 
-def impl_unicodesub(t, s):
-    """unicodesub with the real `_repl` (a closure of tokenize, not reachable from outside): a COMMENT token is
-    unescaped and not string-cleaned, so the value of `/*` + s + `*/` is `/*` + unicodesub(_repl, s) + `*/`
-    (s must not contain `*` or `/`)"""
-    toks = impl_tokens('/*' + s + '*/', False, True)
-    if len(toks) != 1 or toks[0][0] != 'COMMENT' or not (toks[0][1].startswith('/*') and toks[0][1].endswith('*/')):
-        raise ValueError('comment carrier not tokenised as one COMMENT: %r' % (toks,))
-    return toks[0][1][2:-2]
+def find_repl(t):
+    """the replacement callback `_repl` is a closure of Tokenizer.tokenize: take it from the generator's frame — found
+    by behaviour (it decodes a hex escape when handed to unicodesub), not by name"""
+    gen_ = t.tokenize(' ')
+    try:
+        next(gen_)
+        cands = [v for v in gen_.gi_frame.f_locals.values() if callable(v) and hasattr(v, '__code__')
+                 and v.__code__.co_argcount == 1]
+    finally:
+        gen_.close()
+    for f in cands:
+        try:
+            if t.unicodesub(f, '\\41 x') == 'Ax':
+                return f
+        except Exception:   # noqa
+            continue
+    raise ValueError('replacement callback of unicodesub not found in Tokenizer.tokenize')
 
 
 CHECK = C05()
